@@ -33,6 +33,23 @@
 // This project:
 #include <bxdecay0/utils.h>
 
+#ifdef BXDECAY0_VERIF
+// Verification hook (off by default): schedule points around the save/disable,
+// integrate and restore steps of the GSL error handler, so that a test harness
+// can force every interleaving of two threads deterministically.
+extern "C" {
+  void (*bxdecay0_verif_sched_point)(int) = nullptr;
+}
+#define BXDECAY0_VERIF_SCHED(k_)                               \
+  do {                                                         \
+    if (bxdecay0_verif_sched_point != nullptr) {               \
+      bxdecay0_verif_sched_point(k_);                          \
+    }                                                          \
+  } while (0)
+#else
+#define BXDECAY0_VERIF_SCHED(k_)
+#endif
+
 namespace bxdecay0 {
 
   double decay0_gauss(func_type f_, double min_, double max_, double epsrel_, void * params_)
@@ -51,7 +68,9 @@ namespace bxdecay0 {
     epsabs                       = 0.0;
     int count                    = 0;
     int status                   = 0;
+    BXDECAY0_VERIF_SCHED(0);
     gsl_error_handler_t * gsl_eh = gsl_set_error_handler_off();
+    BXDECAY0_VERIF_SCHED(1);
     while (true) {
       status = gsl_integration_qng(&F, min_, max_, epsabs, epsrel, &result, &abserr, &neval);
       /// TRACE
@@ -85,7 +104,9 @@ namespace bxdecay0 {
       }
       /// TRACE if (trace) std::cerr << "[trace] bxdecay0::decay0_gauss: GSL_ETOL = " << "retrying..." << std::endl;
     }
+    BXDECAY0_VERIF_SCHED(2);
     gsl_set_error_handler(gsl_eh);
+    BXDECAY0_VERIF_SCHED(3);
     if (status != 0) {
       std::ostringstream message;
       message << "bxdecay0::decay0_gauss: "
